@@ -299,7 +299,7 @@ func (v6proto) Name() string   { return "v6" }
 func (v6proto) XidBits() int   { return 24 }
 func (v6proto) AcceptTyp() int { return int(dhcpv6.MessageTypeAdvertise) }
 func (v6proto) Dest() *net.UDPAddr {
-	return &net.UDPAddr{IP: net.ParseIP("fe80::77"), Port: 5547}
+	return &net.UDPAddr{IP: net.ParseIP("fe80::77"), Port: 5547, Zone: "eth7"} // a link-local destination needs its zone
 }
 func (v6proto) HasBufferCap() bool { return nclient6.SimHasBufferCap }
 
